@@ -11,7 +11,7 @@ from __future__ import annotations
 
 from fractions import Fraction
 
-from .terms import FALSE, NONE, SHOW_HOOKS, TRUE, T, const, const_value, mk, show
+from .terms import FALSE, NONE, SHOW_HOOKS, TRUE, T, const, const_value, glob, mk, show
 
 # ----------------------------------------------------------------------------- polynomials
 
@@ -308,7 +308,15 @@ EXT_SIGS = {
     "scipy.optimize.linprog": ("c", "A_ub", "b_ub", "A_eq", "b_eq", "bounds", "method"),
     "builtins.range": (),
     "builtins.slice": (),
+    "torch.cat": ("tensors", "dim"),
+    "torch.concat": ("tensors", "dim"),
+    "tensorflow.concat": ("values", "axis"),
+    "numpy.hstack": ("tup",),
+    "numpy.vstack": ("tup",),
 }
+# functions whose first argument is a sequence of arrays: a list and a tuple of the same items are the same call
+SEQ_ARG_FUNCS = {"torch.cat", "torch.concat", "tensorflow.concat", "numpy.concatenate", "numpy.hstack", "numpy.vstack", "numpy.stack",
+                 "pandas.concat", "numpy.column_stack"}
 
 
 class Canon:
@@ -456,6 +464,13 @@ class Canon:
                     base = base.args[0]
                     continue
                 break
+            if base.op == "attr" and base.args[1] in ("iloc", "loc") and key.op == "tuple" and len(key.args[0]) == 2 and \
+                    key.args[0][1].op == "slice" and all(x is NONE for x in key.args[0][1].args):
+                key = key.args[0][0]    # frame.iloc[i, :] is frame.iloc[i]
+            if base.op == "attr" and base.args[1] == "shape" and key.op == "const" and const_value(key) == 0 \
+                    and not isinstance(const_value(key), bool):
+                # x.shape[0] is len(x) for everything that has a shape
+                return self.canon(mk("call", glob("builtins.len"), (base.args[0],), ()))
             return mk("sub", base, key)
         if op == "upd":
             base, key, val = self.canon(a[0]), self.canon(a[1]), self.canon(a[2])
@@ -550,6 +565,9 @@ class Canon:
                 return self._cmp(no, nl, nr)
         if c.op == "not":
             return c.args[0]
+        if (c.op == "call" and c.args[0].op == "global" and c.args[0].args[0] == "builtins.len") or \
+                (c.op == "fn" and c.args[0] == "len"):
+            return self._cmp("==", c, self.canon(const(0)))   # `not len(x)` is `len(x) == 0`
         if c.op == "and":
             return self.canon(mk("or", tuple(mk("not", x) for x in c.args[0])))
         if c.op == "or":
@@ -562,7 +580,16 @@ class Canon:
 
     def _call(self, t: T) -> T:
         f, args, kwargs = t.args
+        if f.op == "global" and f.args[0] == "builtins.len" and len(args) == 1 and not kwargs and args[0].op == "attr" \
+                and args[0].args[1] == "shape":
+            return mk("attr", self.canon(args[0].args[0]), "ndim")   # len(x.shape) is x.ndim
+        if f.op == "global" and f.args[0] == "builtins.slice" and not kwargs and 1 <= len(args) <= 3:
+            # slice(a, b) used as a subscript is the subscript a:b
+            lo, hi, step = (NONE, args[0], NONE) if len(args) == 1 else (tuple(args) + (NONE,))[:3]
+            return self.canon(mk("slice", lo, hi, step))
         cargs = [self.canon(x) for x in args]
+        if f.op == "global" and f.args[0] in SEQ_ARG_FUNCS and cargs and cargs[0].op == "list":
+            cargs[0] = mk("tuple", cargs[0].args[0])
         ckw = tuple(sorted(((k, self.canon(v)) for k, v in kwargs), key=lambda kv: kv[0]))
         name = None
         recv = None
@@ -599,6 +626,10 @@ class Canon:
                 return recv
             if m == "reshape" and len(cargs) == 1 and cargs[0].op == "const" and const_value(cargs[0]) == -1:
                 return recv
+            if m in ("rand", "random_sample", "random", "ranf", "sample") and len(cargs) + len(ckw) == 1 and \
+                    (cargs or ckw[0][0] == "size"):
+                # RandomState.rand(n), .random_sample(n), .random_sample(size=n), .random(size=n): n uniform draws from the same stream
+                return mk("mcall", "rand", recv, (cargs[0] if cargs else ckw[0][1],), ())
             name = METHOD_ALIASES.get(m)
             if name is None:
                 return mk("mcall", m, recv, tuple(cargs), ckw)
